@@ -1,3 +1,4 @@
+import BoolFn.Proofs.Oracle
 import BoolFn.Proofs.Table
 import BoolFn.Bdd
 /-! # C02 — Evaluation follows Boolean semantics, with consistent default and checked modes
